@@ -1,4 +1,5 @@
 import CwPlus.Lemmas.Cw3Flex
+import CwPlus.Lemmas.Cw3FlexAt
 import CwPlus.Props.C15
 /-!
 # C05 (cw3-flex part) — passed proposals execute at most once; the lifecycle only moves forward
@@ -11,7 +12,7 @@ dispatched by proposals, hooks and failing dispatches, at arbitrary blocks, afte
 only), and it returns the deposit refund in front of the proposal's messages; `Close` may return the refund.
 -/
 namespace CwPlus.Props.C05Flex
-open CwPlus CwPlus.Cw3 CwPlus.Cw3Core CwPlus.Cw3Flex
+open CwPlus CwPlus.Cw3 CwPlus.Cw3Core CwPlus.Cw3Flex CwPlus.Props
 
 /-! ## Execute -/
 
@@ -322,6 +323,70 @@ theorem reentrant_execute_fails {ext : Ext} {fuel : Nat} {w : World} {blk : Bloc
       { w with bank := b, flex := s', log := w.log ++ [eventOf w.flex snd (.execute id)] } out (execute_inv hi he) hx hmem
     rw [hd] at this; cases this
 
+/-! ## the observed status only moves forward — over time, and over operations and time -/
+
+/-- On histories whose blocks never go back, a proposal stored Open and not yet expired at the block of
+the last transaction is reported Open there: a vote that decides a proposal early stores the decision
+at once (`Cw3Core.OpenOk`). -/
+theorem reachableAt_openOk {ext : Ext} {fuel : Nat} {w : World} {b : Block} (h : ReachableAt ext fuel w b) :
+    Inv w.flex ∧ AllP (fun _ p => OpenOk b p) w.flex.core := by
+  refine reachableAt_inv (fun b s => Inv s ∧ AllP (fun _ p => OpenOk b p) s.core) ?_ ?_ ?_ h
+  · intro b b2 s hb ⟨hi, ha⟩
+    exact ⟨hi, fun id p hp => openOk_mono hb (ha id p hp)⟩
+  · intro b s g self snd funds m s' out ⟨hi, ha⟩ he
+    exact ⟨execute_inv hi he, allP_step hi.wf (fun _ _ _ hold hs => openOk_step hold hs) ha (execute_coreStep he)⟩
+  · intro m g s b hi
+    exact ⟨instantiate_inv hi, by rw [instantiate_core hi]; exact allP_empty _⟩
+
+/-- "Observed over time each proposal's status only moves Open to Passed to Executed or Open to Rejected" —
+the passage of time (cw3-flex instance of `C05.observed_status_monotone_in_time`): on every history whose
+blocks never go back, with the state left untouched, the status reported at a later block is reachable
+along the forward edges from the status reported at an earlier block (both at or after the last
+transaction); it is constant except at expiry, where Open may turn into Passed or Rejected. -/
+theorem observed_status_monotone_in_time {ext : Ext} {fuel : Nat} {w : World} {b b1 b2 : Block}
+    (hr : ReachableAt ext fuel w b) (h1 : C04.later b b1) (h2 : C04.later b1 b2) {id : Nat} {p : Proposal}
+    (hp : w.flex.core.proposals.get? id = some p) {st1 st2 : Status}
+    (hq1 : p.currentStatus b1 = .ok st1) (hq2 : p.currentStatus b2 = .ok st2) : edge st1 st2 = true := by
+  obtain ⟨hi, ha⟩ := reachableAt_openOk hr
+  exact observed_edge_core hi.wf (openOk_mono h1 (ha id p hp)) (later_refl _) hp hp
+    (fun _ _ => ⟨rfl, Or.inl rfl⟩) h2 hq1 hq2
+
+/-- **The observed status only moves forward — ONE statement over operations and time** (cw3-flex
+instance of `C05.observed_status_monotone`).  Take ANY reachable world `w0` and query a proposal there at
+any block `b1`; let any further history follow (`ReachableFrom`: transactions on the multisig, the group and
+the token by anybody, with group updates, hooks, deposits, re-entrant and failing dispatches, at blocks
+`≥ b1` that never go back, last transaction at `b`), and query the same proposal again at any block
+`b2 ≥ b`.  Whenever both queries answer, the later answer is reachable from the earlier one along the
+forward edges only: equal, Open→Passed, Open→Rejected, Open→Executed (through Passed), Passed→Executed.
+Never backwards, never Passed→Rejected, never out of Rejected or Executed.  No hypothesis about the group
+is needed (it holds also inside the known same-block finding of C06). -/
+theorem observed_status_monotone {ext : Ext} {fuel : Nat} {w0 w : World} {b1 b b2 : Block}
+    (hr : Reachable ext fuel w0) (hf : ReachableFrom ext fuel w0 b1 w b)
+    (h2 : C04.later b b2) {id : Nat} {v1 v2 : ProposalView}
+    (hq1 : Cw3Flex.queryProposal w0.flex b1 id = .ok v1) (hq2 : Cw3Flex.queryProposal w.flex b2 id = .ok v2) :
+    v1.status = v2.status ∨
+      (v1.status = .open ∧ (v2.status = .passed ∨ v2.status = .rejected ∨ v2.status = .executed)) ∨
+      (v1.status = .passed ∧ v2.status = .executed) := by
+  obtain ⟨p0, hp0, hs1⟩ := queryProposal_ok hq1
+  obtain ⟨p, hp, hs2⟩ := queryProposal_ok hq2
+  have hi0 := reachable_inv hr
+  have hopen : OpenOk b1 p0 := reachable_openOk hr id p0 hp0 b1
+  have hinv := reachableFrom_inv
+    (fun b s => C04.later b1 b ∧ Inv s ∧ Later w0.flex.core s.core ∧
+      (p0.status = .open → p0.expires.isExpired b1 = true → FrozenAt p0 v1.status id s.core))
+    (fun b b2 s hb ⟨h1, h2, h3, h4⟩ => ⟨later_trans_blk h1 hb, h2, h3, h4⟩)
+    (fun b s g self snd funds m s' out ⟨h1, h2, h3, h4⟩ he =>
+      ⟨h1, execute_inv h2 he, later_trans h3 (execute_later h2 he),
+        fun ho hexp => frozenAt_step ho hexp hs1 h1 (h4 ho hexp) (execute_coreStep he)⟩)
+    (w0 := w0) (b1 := b1)
+    ⟨later_refl_blk _, hi0, later_refl _, fun _ _ => ⟨hi0.wf, p0, hp0, rfl, Or.inl rfl⟩⟩ hf
+  obtain ⟨_, hi, hlater, hfz⟩ := hinv
+  refine (edge_iff_cases _ _).mp (observed_edge_core hi.wf hopen hlater hp0 hp ?_ (later_trans_blk hf.le h2) hs1 hs2)
+  intro ho hexp
+  obtain ⟨_, p', hp', hfo⟩ := hfz ho hexp
+  rw [hp] at hp'; cases hp'
+  exact hfo
+
 /-! ## non-vacuity -/
 
 open CwPlus.Props.C15 in
@@ -338,6 +403,33 @@ example :
        ⟨⟨10, 0⟩, .flex "b" [] (.vote 1 .yes)⟩]
     ((w.flex.core.proposals.get? 1).map (·.status)) = some .passed ∧
     (tx CwPlus.Props.C15.Cex.noExt 10 w ⟨10, 0⟩ (.flex "c" [] (.execute 1))).isOk = false := by
+  decide
+
+/-- non-vacuity of `observed_status_monotone(_in_time)`: `w0` = after `a` proposed (block 10, count 3, a's
+weight 1: Open); further history at later blocks: `b` votes yes (Passed), an outsider executes -/
+def exW0 : World :=
+  run CwPlus.Props.C15.Cex.noExt 10 CwPlus.Props.C15.Cex.world0 [⟨⟨10, 0⟩, .flex "a" [⟨5, "ucosm"⟩] (.propose "t" "d" [] none)⟩]
+def exMore : List Op := [⟨⟨12, 0⟩, .flex "b" [] (.vote 1 .yes)⟩, ⟨⟨13, 0⟩, .flex "x" [] (.execute 1)⟩]
+
+open CwPlus.Props.C15 in
+example : ReachableAt Cex.noExt 10 exW0 ⟨10, 0⟩ :=
+  ReachableAt.step ⟨⟨10, 0⟩, .flex "a" [⟨5, "ucosm"⟩] (.propose "t" "d" [] none)⟩
+    (ReachableAt.init (m := Cex.inst) Cex.group0 Cex.token0 [(("a", "ucosm"), 20)] "ms" "grp" "tok" 5 ⟨10, 0⟩ rfl)
+    ⟨Nat.le_refl _, Nat.le_refl _⟩
+open CwPlus.Props.C15 in
+example : Reachable Cex.noExt 10 exW0 :=
+  ⟨Cex.inst, Cex.flex0, Cex.group0, Cex.token0, _, "ms", "grp", "tok", 5,
+    [⟨⟨10, 0⟩, .flex "a" [⟨5, "ucosm"⟩] (.propose "t" "d" [] none)⟩], rfl, rfl⟩
+open CwPlus.Props.C15 in
+example : ReachableFrom Cex.noExt 10 exW0 ⟨11, 0⟩ (run Cex.noExt 10 exW0 exMore) ⟨13, 0⟩ :=
+  ReachableFrom.step (w := step Cex.noExt 10 exW0 ⟨⟨12, 0⟩, .flex "b" [] (.vote 1 .yes)⟩) ⟨⟨13, 0⟩, .flex "x" [] (.execute 1)⟩
+    (ReachableFrom.step ⟨⟨12, 0⟩, .flex "b" [] (.vote 1 .yes)⟩ ReachableFrom.refl ⟨by decide, by decide⟩) ⟨by decide, by decide⟩
+open CwPlus.Props.C15 in
+/-- observed Open at block 11 before, Rejected at block 15 had nothing more happened (expiry), Executed after
+the further history -/
+example : ((Cw3Flex.queryProposal exW0.flex ⟨11, 0⟩ 1).toOption.map (·.status)) = some .open ∧
+    ((Cw3Flex.queryProposal exW0.flex ⟨15, 0⟩ 1).toOption.map (·.status)) = some .rejected ∧
+    ((Cw3Flex.queryProposal (run Cex.noExt 10 exW0 exMore).flex ⟨20, 0⟩ 1).toOption.map (·.status)) = some .executed := by
   decide
 
 end CwPlus.Props.C05Flex
